@@ -224,3 +224,19 @@ Proof.
   replace (1 / INR n) with (/ INR n) by (unfold Rdiv; ring).
   split; nra.
 Qed.
+
+(* ---------- NaN-aware means ---------- *)
+Lemma present_app {F} (a b : list (option F)) : present (a ++ b) = present a ++ present b.
+Proof. unfold present. apply flat_map_app. Qed.
+
+Theorem nanmean_ignores_missing (a b : list (option R)) : nanmean ROps (a ++ None :: b) = nanmean ROps (a ++ b).
+Proof. unfold nanmean. rewrite !present_app. cbn [present flat_map app]. reflexivity. Qed.
+
+Lemma present_all (xs : list R) : present (map Some xs) = xs.
+Proof. induction xs as [|x xs IH]; [reflexivity|]. cbn. unfold present in IH. rewrite IH. reflexivity. Qed.
+
+Theorem nanmean_all_present (xs : list R) : xs <> [] -> nanmean ROps (map Some xs) = Some (mean ROps xs).
+Proof. intros H. unfold nanmean. rewrite present_all. destruct xs; [contradiction|reflexivity]. Qed.
+
+Theorem nanmean_nothing_present n : nanmean ROps (repeat None n) = None.
+Proof. unfold nanmean. replace (present (repeat (@None R) n)) with (@nil R); [reflexivity|]. induction n; [reflexivity|exact IHn]. Qed.
